@@ -123,11 +123,11 @@ pub fn run_json(t: &mut Toks) -> Option<String> {
         Ok(j) => (canon_json(j), match serde_json::from_value::<E>(j.clone()) { Ok(e2) => if same_expr(&e, &e2) { "same" } else { "differs" }, Err(_) => "err" }),
         Err(_) => ("err".into(), "err"),
     };
-    let via_text = match serde_json::to_string(&e) {
-        Ok(s) => match serde_json::from_str::<E>(&s) { Ok(e2) => if same_expr(&e, &e2) { "same" } else { "differs" }, Err(_) => "err" },
-        Err(_) => "err",
+    let (via_text, text) = match serde_json::to_string(&e) {
+        Ok(s) => (match serde_json::from_str::<E>(&s) { Ok(e2) => if same_expr(&e, &e2) { "same" } else { "differs" }, Err(_) => "err" }, hex(&s)),
+        Err(_) => ("err", "-".into()),
     };
-    Some(format!("{} ; {} ; {}", canon, via_value, via_text))
+    Some(format!("{} ; {} ; {} ; text {}", canon, via_value, via_text, text))
 }
 /// `jsonin <hex json text>` → deserialised tree or err (foreign JSON: integers, key order, unknown tags)
 pub fn run_jsonin(t: &mut Toks) -> Option<String> {
